@@ -37,18 +37,19 @@ GridStep(post) ==
 FftAxes(op, a) ==
   CASE op \in {"time_shift", "freq_shift", "coh_dd", "snippet", "stft"} -> {1}
     [] op = "istft" -> {2}
-    [] op = "fft_axis" -> {a[1]}
+    [] op = "fft_axis" -> {a[j] : j \in 1..Len(a)}
     [] OTHER -> {}
 RefusalStep(op, a, refused, pre) ==
   refused => pre.back = "dask" /\ \E ax \in FftAxes(op, a) : ax \in 1..Len(pre.ch) /\ Len(pre.ch[ax]) > 1
 
 \* how a run ends: compute -> NumPy-backed; persist -> still Dask-backed with the same chunks;
-\* np.asarray(signal) leaves the signal as it was; nothing happens to a NumPy-backed signal
+\* np.asarray(signal) and "peek" (x.compute() while x lives on) leave the signal as it was;
+\* nothing happens to a NumPy-backed signal
 RunStep(op, pre, post) ==
   /\ pre.back = "np" => post.back = "np"
   /\ (pre.back = "dask" /\ op = "compute") => post.back = "np"
   /\ (pre.back = "dask" /\ op = "persist") => post.back = "dask" /\ post.ch = pre.ch
-  /\ (pre.back = "dask" /\ op = "asarray") => post.back = "dask" /\ post.ch = pre.ch
+  /\ (pre.back = "dask" /\ op \in {"asarray", "peek"}) => post.back = "dask" /\ post.ch = pre.ch
 \* a persisted signal holds its data: computing it again ("rerun") executes no task of the
 \* graph that was persisted
 RerunStep(kind, n0, n1) == kind = "rerun" => n1 = n0
